@@ -4,6 +4,7 @@
 //   mempool measure <ignored> <universe.json>          one line per universe transaction: {"fee","vsize","weight","mem","dust":[..]}
 //   mempool replay|strict <tests.ndjson> <universe.json>
 //   mempool pkgtable <rows.ndjson> <universe.json>     E4: IsWellFormedPackage / IsChildWithParents / IsTopoSortedPackage / IsConsistentPackage
+//   mempool rule5 <rows.ndjson> <universe.json>        C26: Rule 5 at the real bound (E4 rows of module Rule5) on a pool of 102 singleton clusters
 //   mempool loadfuzz <tests.ndjson> <universe.json>    C55: runs the steps of each test, then loads seeded byte-flipped copies of the dump
 // universe.json: {universe: [tx...], h0, basedt, base: [{v,h,cls?}...], opts: {minrelay, incr, expiry, maxrepl, maxcluster,
 // std?, maxclsize?, maxmempool?}} as printed by the specification (module MU_*).
@@ -568,7 +569,7 @@ void RunSteps(World& w, const UniValue& st, bool strict)
 
 int main(int argc, char** argv)
 {
-    if (argc < 4) { std::cerr << "usage: mempool measure|replay|strict|pkgtable|loadfuzz <tests> <universe.json>\n"; return 2; }
+    if (argc < 4) { std::cerr << "usage: mempool measure|replay|strict|pkgtable|rule5|loadfuzz <tests> <universe.json>\n"; return 2; }
     { std::ifstream f(argv[3]); std::stringstream ss; ss << f.rdbuf(); if (!g_uni.read(ss.str())) { std::cerr << "bad universe\n"; return 2; } }
     const std::string mode = argv[1];
     if (mode == "measure") {
@@ -613,6 +614,50 @@ int main(int argc, char** argv)
             if (!cons && row["cons"].get_bool()) R().Count("conservative_rows");
             if (cwp && !row["cwp"].get_bool()) return "IsChildWithParents holds, specification: not a child with its parents";
             if (!cwp && row["cwp"].get_bool()) R().Count("conservative_rows");
+            return "";
+        });
+    }
+    if (mode == "rule5") {
+        // C26, Rule 5 at the node's compile-time bound (E4 rows of module Rule5): {txs: [one id: ProcessTransaction | parent, child:
+        // ProcessNewPackage], victims: [ids], a, b, ok, why, evicted}: the victims are submitted to a fresh node (each must become a
+        // singleton cluster), then the case. SAFE mode: a mismatch is an accepted replacement the specification refuses, a wrong
+        // evicted set, or an eviction by a refused one; a refusal of what the specification accepts is counted as conservative.
+        return TableMain(argv[2], [&](const UniValue& row) -> std::string {
+            World w;
+            std::vector<Txid> victims;
+            for (size_t i = 0; i < row["victims"].size(); ++i) {
+                const auto& tx = w.txu.at(row["victims"][i].getInt<int>());
+                const MempoolAcceptResult r = WITH_LOCK(cs_main, return w.sim->cm().ProcessTransaction(tx, false));
+                if (r.m_result_type != MempoolAcceptResult::ResultType::VALID) return "setup: victim rejected: " + r.m_state.GetRejectReason();
+                victims.push_back(tx->GetHash());
+            }
+            {
+                LOCK2(cs_main, w.mp().cs);
+                if (w.mp().size() != victims.size()) return "setup: pool does not hold exactly the victims";
+                for (const auto& e : w.mp().entryAll()) if (!w.mp().GetParents(e.get()).empty() || !w.mp().GetChildren(e.get()).empty()) return "setup: a victim is not a singleton cluster";
+            }
+            std::string why; bool state_ok;
+            std::vector<CTransactionRef> txs;
+            for (size_t i = 0; i < row["txs"].size(); ++i) txs.push_back(w.txu.at(row["txs"][i].getInt<int>()));
+            if (txs.size() == 1) {
+                const MempoolAcceptResult r = WITH_LOCK(cs_main, return w.sim->cm().ProcessTransaction(txs[0], false));
+                state_ok = r.m_result_type == MempoolAcceptResult::ResultType::VALID;
+                why = state_ok ? "ok" : World::NormReason(r.m_state.GetRejectReason());
+            } else {
+                const PackageMempoolAcceptResult r = WITH_LOCK(cs_main, return ProcessNewPackage(w.sim->cm().ActiveChainstate(), w.mp(), txs, false, std::nullopt));
+                state_ok = r.m_state.IsValid();
+                why = state_ok ? "ok" : World::NormReason(r.m_state.GetRejectReason());
+            }
+            { LOCK(cs_main); w.mp().check(w.sim->cm().ActiveChainstate().CoinsTip(), w.sim->cm().ActiveChain().Height() + 1); }
+            bool accepted = false; int64_t evicted = 0;
+            for (const auto& tx : txs) accepted |= w.mp().exists(tx->GetHash());
+            for (const auto& v : victims) evicted += !w.mp().exists(v);
+            const int64_t clusters = row["a"].getInt<int64_t>() + row["b"].getInt<int64_t>();
+            const std::string got = strprintf("node: %s (%s), %d victims evicted", accepted ? "accepted" : "refused", why, evicted);
+            if (accepted && !row["ok"].get_bool()) return strprintf("replacement conflicting with %d clusters (bound %d) accepted; specification: %s; %s", clusters, row["bound"].getInt<int64_t>(), row["why"].get_str(), got);
+            if (accepted && evicted != row["evicted"].getInt<int64_t>()) return strprintf("accepted replacement evicted %d victims, its conflicts are %d; %s", evicted, row["evicted"].getInt<int64_t>(), got);
+            if (!accepted && evicted != 0) return "refused replacement evicted pool transactions; " + got;
+            if (!accepted && row["ok"].get_bool()) R().Count("conservative_rows"); else if (why != row["why"].get_str()) R().Count("other_reason_rows");
             return "";
         });
     }
